@@ -283,4 +283,42 @@ def tupleLoop (ev : Nat → Id → Except Exc Id) (value : List Id) :
 def tupleCheck (ev : Nat → Id → Except Exc Id) (value : List Id) : TupleOut :=
   tupleLoop ev value 0 value none []
 
+/-! ## `call_notifiers`: dispatch from a private snapshot (ctraits.c:2293-2329)
+
+"Notifier lists are copied in order to prevent run-time modifications": the
+trait-level list and the object-level (anytrait) list are concatenated into a
+NEW list before the first call; the loop runs over that list.  Handlers may
+do anything to the live lists meanwhile. -/
+
+/-- What a handler does to the live notifier lists while it is being called. -/
+inductive HAct where
+  | nothing
+  | removeSelf
+  | remove (h : Id)
+  /-- register a new handler `h` on the trait (`onTrait`) or on the object -/
+  | add (h : Id) (onTrait : Bool)
+  deriving DecidableEq, Repr
+
+/-- The live lists: `tnotifiers` of the trait, `onotifiers` of the object. -/
+structure Lists where
+  t : List Id
+  o : List Id
+  deriving DecidableEq, Repr
+
+def Lists.apply (l : Lists) (self : Id) : HAct → Lists
+  | .nothing => l
+  | .removeSelf => ⟨l.t.erase self, l.o.erase self⟩
+  | .remove h => ⟨l.t.erase h, l.o.erase h⟩
+  | .add h onTrait => if onTrait then ⟨l.t ++ [h], l.o⟩ else ⟨l.t, l.o ++ [h]⟩
+
+/-- The loop over the snapshot: every entry is called, and its action applied to the live lists. -/
+def dispatchLoop (act : Id → HAct) : List Id → Lists → List Id × Lists
+  | [], l => ([], l)
+  | h :: rest, l =>
+    let r := dispatchLoop act rest (l.apply h (act h))
+    (h :: r.1, r.2)
+
+/-- One notification: snapshot = `tnotifiers ++ onotifiers` at the start. -/
+def dispatch (act : Id → HAct) (l : Lists) : List Id × Lists := dispatchLoop act (l.t ++ l.o) l
+
 end TraitsVerif.Model.RefLedger
